@@ -281,6 +281,15 @@ def run_case(case):
                 pf.solvePDE(p2, eq2)
             res["evals"] += 2
             v2 = np.asarray(p2.value, dtype=float)
+            # the real two-step run must be what the one-step operator predicts (S_old applied twice;
+            # the Dirichlet data are zero here): nothing stateful may change between the steps
+            pred = (S_old @ (S_old @ e.ravel())).reshape(v2.shape)
+            if not np.all(np.abs(v2 - pred) <= 64 * EPS * kappa * 4 + 1e-300):
+                k = "C07:two_steps_vs_operator:%s:%s" % (g.cls, "u" if vi else "base")
+                if k not in seen:
+                    seen.add(k)
+                    F.append({"key": k, "msg": "%s (%s BCs), dt=%g, velocity %s: two real solvePDE steps with terms rebuilt from the same coefficient objects differ from the one-step solution operator applied twice by %.3g"
+                                               % (gid, setup, dt, label, float(np.max(np.abs(v2 - pred)))), "detail": {"grid": gid, "setup": setup, "dt": dt, "velocity": label}})
             if np.any(v2 < -tol * 4) or np.any(v2 > 1.0 + tol * 4):
                 k = "C07:two_steps:%s:%s" % (g.cls, setup)
                 if k not in seen:
